@@ -4,4 +4,6 @@ EXTENDS PmmModel
 R(a, l, t) == [a |-> a, l |-> l, t |-> t]
 MCHistMaps == { <<R(0, 12, 1)>>, <<R(0, 16, 1)>>, <<R(0, 20, 1)>>, <<R(4, 32, 1)>>, <<R(0, 36, 1)>>,
                 <<R(2, 19, 1)>>, <<R(0, 12, 1), R(12, 4, 2), R(17, 22, 1)>> }
+\* maps whose first region ends in a partial page that holds a page-aligned address (kernel in the trailing partial page)
+MCTailMaps == { <<R(0, 5, 1), R(9, 4, 1)>>, <<R(0, 5, 1), R(9, 8, 1)>>, <<R(1, 4, 1), R(12, 8, 1)>> }
 ====
